@@ -309,7 +309,8 @@ def discharge_overflow(b, bb, t, m, outcomes):
     if any(b.path == p for p in m.engine.inlined) or b is m.body:
         return True, 'operation of the now() formula: range-checked in the interval domain (C14.M3 now:arithmetic-in-range)'
     # (b) the decrement of a loop counter proven bounded by the ranking rule (C18.B1): counter in [1, init]
-    from .C18 import ranking_info, _src_local, _const_of
+    from .C18 import ranking_info, _src_local, _const_of, RANK_FB
+    RANK_FB[0] = m.fb
     for s in b.blocks[bb]['stmts']:
         if s['k'] == 'assign' and s['r']['k'] == 'bin' and s['r']['op'] == 'SubWithOverflow':
             ctr = _src_local(b, bb, s['r']['l'])
